@@ -480,6 +480,11 @@ class RawAlgorithmsMixIn:
             r = int(r)
         return r
 
+    @staticmethod
+    def _nonnegative_integer_array(r):
+        return isinstance(r, numpy.ndarray) and r.ndim > 0 and r.size > 0 and r.dtype.kind in 'iuf' \
+            and bool(numpy.all(r >= 0)) and bool(numpy.all(numpy.mod(r, 1) == 0))
+
     @classmethod
     def _pow_real(cls, x_data, r, out = None):
         """ y = x**r, where r is scalar """
@@ -488,6 +493,16 @@ class RawAlgorithmsMixIn:
             raise NotImplementedError
         (D,P) = y_data.shape[:2]
         r = cls._exact_exponent(r)
+
+        if cls._nonnegative_integer_array(r):
+            # an array of non-negative whole numbers: each entry takes the exact integer path
+            # (polynomial in x, no division by the zeroth coefficient)
+            rb = numpy.broadcast_to(r, y_data.shape[2:])
+            for k in numpy.unique(rb):
+                tmp = numpy.zeros_like(y_data)
+                cls._pow_real(x_data, int(k), tmp)
+                y_data[:, :, rb == k] = tmp[:, :, rb == k]
+            return y_data
 
         if isinstance(r, (int, numpy.integer)) and r >= 0:
             if r == 0:
@@ -555,7 +570,15 @@ class RawAlgorithmsMixIn:
         # print 'ybar_data=',ybar_data
 
         r = cls._exact_exponent(r)
-        if isinstance(r, (int, numpy.integer)) and r >= 0:
+        if cls._nonnegative_integer_array(r):
+            # d/dx x**r = r x**(r-1), entry by entry on the exact integer path (zero where r = 0)
+            tmp = numpy.zeros_like(xbar_data)
+            cls._pow_real(x_data, numpy.maximum(r - 1, 0), out = tmp)
+            tmp *= r
+            cls._mul(ybar_data, tmp, tmp)
+            xbar_data += tmp
+
+        elif isinstance(r, (int, numpy.integer)) and r >= 0:
 
             if r > 0:
 
